@@ -3,19 +3,28 @@
 // rkcommon::utility::{ArrayView, OwnedArray, FixedArray, FixedArrayView, DataView}
 // objects and reports, after every step and for every wrapper slot the
 // specification does not mark as dangling, what the AbstractArray interface
-// shows: size(), operator bool, at(i), begin()..end(), at(i >= size()), where
-// data() points relative to the live source containers and which slots designate
-// overlapping element ranges.  Wrappers are placement-constructed so that
-// construction and destruction are actions of the history.  The driver never
-// decides anything and never reads through a slot listed in `dang`.
+// shows: size(), operator bool, the contents through at(i) and through
+// begin()..end() (element by element, or - on the slots the specification lists
+// sample positions for - the sums, the iteration length and the sampled
+// elements), at(i) for the out-of-range probe indices of the specification,
+// whether the redundant accessors agree, where data() points relative to the
+// live source containers and which slots designate overlapping element ranges.
+// Wrappers are placement-constructed so that construction and destruction are
+// actions of the history.  The driver never decides anything and never reads
+// through a slot listed in `dang`.
 //
-// Variants (hist["variant"]): element type u8 | i32 | f64 | s12 (12-byte struct).
+// Variants (hist["variant"]): element type u8 | i32 | f64 | s3 | s12 | s24 | str
+// (str = std::string, for ArrayView / OwnedArray histories only: FixedArray copies
+// its elements with memcpy).
 #include <array>
+#include <climits>
 #include <cstdint>
 #include <cstring>
+#include <map>
 #include <memory>
 #include <new>
 #include <string>
+#include <sys/mman.h>
 #include <vector>
 #include "driver.h"
 #include "rkcommon/utility/ArrayView.h"
@@ -30,36 +39,104 @@ using vj::Json;
 // ---------------------------------------------------------------------------
 // Element positions always hold integers (TLC cannot compare an integer with a string):
 // what is not an element value is reported as one of these negative markers.
-static const long long TORN_ELEMENT = -1000001;     // 12-byte element whose parts disagree
+static const long long TORN_ELEMENT = -1000001;     // element that is none of the 256 values of the mapping
 static const long long ACCESS_DISAGREE = -1000002;  // at(i), operator[](i), data()+i designate different objects
 static const long long AT_THREW = -1000003;         // at(i) threw for i < size()
 static const long long CITER_DIFFERS = -1000004;    // cbegin()/cend() cover a different number of elements
 
-// element types: model integers <-> concrete element values (injective)
-struct S12
+// element types: model integers 0..255 <-> concrete element values (injective; the values include what
+// generic copying code can mishandle: 0x00 / 0x80 / 0xff bytes, negative and extreme integers, negative
+// zero, subnormal / huge / non-dyadic doubles, strings inside and beyond the small-string buffer)
+static int32_t i32of(long long v)
 {
-  int32_t a, b, c;
-};
+  if (v < 128) return (int32_t)v;
+  if (v == 128) return INT32_MIN;
+  if (v == 254) return INT32_MAX;
+  return (int32_t)(v - 256);
+}
+static long long i32back(int32_t x)
+{
+  if (x >= 0 && x < 128) return x;
+  if (x == INT32_MIN) return 128;
+  if (x == INT32_MAX) return 254;
+  if (x >= -127 && x <= -1 && x != -2) return (long long)x + 256;
+  return TORN_ELEMENT;
+}
+static double f64of(long long v)
+{
+  switch (v) {
+  case 0: return 0.0;
+  case 128: return -0.0;
+  case 129: return 4.9406564584124654e-324;
+  case 130: return 1.7976931348623157e308;
+  case 131: return -1.7976931348623157e308;
+  case 132: return 2.2250738585072014e-308;
+  }
+  return v < 128 ? (double)v + 0.3 : -(double)(256 - v) - 0.3;
+}
+static long long f64back(double d)
+{
+  static std::map<uint64_t, int> tab;
+  if (tab.empty())
+    for (int k = 0; k < 256; ++k) { double x = f64of(k); uint64_t b; memcpy(&b, &x, 8); tab[b] = k; }
+  uint64_t b;
+  memcpy(&b, &d, 8);
+  auto it = tab.find(b);
+  return it == tab.end() ? TORN_ELEMENT : it->second;
+}
 
-template <typename T> struct Conv
+struct S3 { uint8_t r, g, b; };
+struct S12 { int32_t a; uint32_t b, c; };
+struct S24 { double x, y, z; };
+
+template <typename T> struct Conv;
+template <> struct Conv<uint8_t>
 {
-  static T to(long long v) { return (T)v; }
-  static Json from(const T &v) { return Json((long long)v); }
+  static uint8_t to(long long v) { return (uint8_t)v; }
+  static long long from(const uint8_t &v) { return v; }
+};
+template <> struct Conv<int32_t>
+{
+  static int32_t to(long long v) { return i32of(v); }
+  static long long from(const int32_t &v) { return i32back(v); }
+};
+template <> struct Conv<double>
+{
+  static double to(long long v) { return f64of(v); }
+  static long long from(const double &v) { return f64back(v); }
+};
+template <> struct Conv<S3>
+{
+  static S3 to(long long v) { S3 s; s.r = (uint8_t)v; s.g = (uint8_t)(v ^ 0x5a); s.b = (uint8_t)~v; return s; }
+  static long long from(const S3 &s) { return (s.g == (uint8_t)(s.r ^ 0x5a) && s.b == (uint8_t)~s.r) ? s.r : TORN_ELEMENT; }
 };
 template <> struct Conv<S12>
 {
-  static S12 to(long long v)
+  static S12 to(long long v) { S12 s; s.a = i32of(v); s.b = (uint32_t)s.a + 1000u; s.c = ~(uint32_t)s.a; return s; }
+  static long long from(const S12 &s) { return (s.b == (uint32_t)s.a + 1000u && s.c == ~(uint32_t)s.a) ? i32back(s.a) : TORN_ELEMENT; }
+};
+template <> struct Conv<S24>
+{
+  static S24 to(long long v) { S24 s; s.x = f64of(v); s.y = (double)v + 0.5; s.z = -(double)v - 1.0; return s; }
+  static long long from(const S24 &s)
   {
-    S12 s;
-    s.a = (int32_t)v;
-    s.b = (int32_t)v + 1000;
-    s.c = ~(int32_t)v;
-    return s;
+    long long k = f64back(s.x);
+    if (k < 0) return k;
+    return (s.y == (double)k + 0.5 && s.z == -(double)k - 1.0) ? k : TORN_ELEMENT;
   }
-  static Json from(const S12 &s)
+};
+template <> struct Conv<std::string>
+{
+  static std::string to(long long v)
   {
-    if (s.b != s.a + 1000 || s.c != ~s.a) return Json(TORN_ELEMENT);
-    return Json((long long)s.a);
+    return (v % 2) ? "e" + std::to_string(v) : "element-number-" + std::to_string(v) + "-is-longer-than-any-small-string-buffer";
+  }
+  static long long from(const std::string &s)
+  {
+    size_t p = s.find_first_of("0123456789");
+    if (p == std::string::npos) return TORN_ELEMENT;
+    long long k = atoll(s.c_str() + p);
+    return (k >= 0 && k < 256 && s == to(k)) ? k : TORN_ELEMENT;
   }
 };
 
@@ -69,14 +146,13 @@ struct IWorld
   virtual Json step(const Json &act) = 0;
 };
 
-static const size_t ARRLEN = 3; // std::array sources are std::array<T, 3> (ArrLen in the .cfg files)
 static const int MAXSLOTS = 8;
 static const int MAXSRCS = 8;
+static const size_t CAP = 300000; // no observation loop runs further than this many elements
 
 template <typename T>
 struct ArrWorld : IWorld
 {
-  typedef std::array<T, ARRLEN> Arr;
   union Raw
   {
     alignas(16) unsigned char av[sizeof(ArrayView<T>)];
@@ -87,17 +163,22 @@ struct ArrWorld : IWorld
   {
     bool live = false;
     std::string kind;
+    std::string note;                         // disagreement of two entry points found while performing the action
     Raw *raw = nullptr;                       // heap cell the wrapper object lives in (freed on destroy)
     std::shared_ptr<FixedArray<T>> fa;        // FixedArray objects are held the way FixedArrayView needs them
     AbstractArray<T> *base = nullptr;         // the common interface everything is observed through
   };
+  // source containers: std::vector, or std::array of 3, 1 or 0 elements (by the number of elements asked for)
   struct Source
   {
     std::vector<T> *vec = nullptr;
-    Arr *arr = nullptr;
-    bool live() const { return vec || arr; }
-    T *data() const { return vec ? vec->data() : arr->data(); }
-    size_t size() const { return vec ? vec->size() : arr->size(); }
+    std::array<T, 3> *a3 = nullptr;
+    std::array<T, 1> *a1 = nullptr;
+    std::array<T, 0> *a0 = nullptr;
+    bool live() const { return vec || a3 || a1 || a0; }
+    T *data() const { return vec ? vec->data() : a3 ? a3->data() : a1 ? a1->data() : a0->data(); }
+    size_t size() const { return vec ? vec->size() : a3 ? a3->size() : a1 ? a1->size() : a0->size(); }
+    void destroy() { delete vec; delete a3; delete a1; delete a0; vec = nullptr; a3 = nullptr; a1 = nullptr; a0 = nullptr; }
   };
   Slot slot[MAXSLOTS + 1];
   Source srcs[MAXSRCS + 1];
@@ -107,15 +188,42 @@ struct ArrWorld : IWorld
   {
     for (int i = 1; i <= MAXSLOTS; ++i)
       if (slot[i].live) destroy(i);
-    for (int s = 1; s <= MAXSRCS; ++s) {
-      delete srcs[s].vec;
-      delete srcs[s].arr;
-    }
+    for (int s = 1; s <= MAXSRCS; ++s) srcs[s].destroy();
   }
 
   ArrayView<T> &av(int i) { return *reinterpret_cast<ArrayView<T> *>(slot[i].raw->av); }
   OwnedArray<T> &oa(int i) { return *reinterpret_cast<OwnedArray<T> *>(slot[i].raw->oa); }
   FixedArrayView<T> &fv(int i) { return *reinterpret_cast<FixedArrayView<T> *>(slot[i].raw->fv); }
+
+  // construction / assignment from a source container: the overload is chosen by the container's static type
+  template <typename W> static void newFrom(void *mem, Source &s)
+  {
+    if (s.vec) new (mem) W(*s.vec);
+    else if (s.a3) new (mem) W(*s.a3);
+    else if (s.a1) new (mem) W(*s.a1);
+    else new (mem) W(*s.a0);
+  }
+  template <typename W> static W *heapFrom(Source &s)
+  {
+    return s.vec ? new W(*s.vec) : s.a3 ? new W(*s.a3) : s.a1 ? new W(*s.a1) : new W(*s.a0);
+  }
+  template <typename W> static void assignFrom(W &w, Source &s)
+  {
+    if (s.vec) w = *s.vec;
+    else if (s.a3) w = *s.a3;
+    else if (s.a1) w = *s.a1;
+    else w = *s.a0;
+  }
+
+  static void expand(const Json &runs, std::vector<long long> &out)
+  {
+    for (size_t r = 0; r < runs.size(); ++r) {
+      const Json &q = runs[r];
+      long long b = q["b"].num(), o = q["o"].num(), n = q["n"].num();
+      bool pat = q["t"].str() == "p";
+      for (long long j = 0; j < n; ++j) out.push_back(pat ? (b + o + j) % 251 : b);
+    }
+  }
 
   void destroy(int i)
   {
@@ -132,6 +240,7 @@ struct ArrWorld : IWorld
     s.live = false;
     s.base = nullptr;
     s.kind.clear();
+    s.note.clear();
   }
 
   // pointer + size designated by (mode, x, off, len)
@@ -140,13 +249,13 @@ struct ArrWorld : IWorld
     if (m == "ptr") {
       if (x == 0) { p = nullptr; n = 0; }
       else { p = srcs[x].data() + off; n = len; }
-    } else { // wptr
+    } else { // wptr (x may be the slot itself)
       p = slot[x].base->data() + off;
       n = len;
     }
   }
 
-  std::string construct(int w, const std::string &k, const std::string &m, int x, size_t off, size_t len, const Json &vals)
+  std::string construct(int w, const std::string &k, const std::string &m, int x, size_t off, size_t len, const Json &runs)
   {
     Slot &s = slot[w];
     if (s.live) return "slot already live";
@@ -156,33 +265,42 @@ struct ArrWorld : IWorld
     if (m == "ptr" || m == "wptr") region(m, x, off, len, p, n);
     if (k == "ArrayView") {
       if (m == "default") new (s.raw->av) ArrayView<T>();
-      else if (m == "src") { if (srcs[x].vec) new (s.raw->av) ArrayView<T>(*srcs[x].vec); else new (s.raw->av) ArrayView<T>(*srcs[x].arr); }
-      else if (m == "ptr" || m == "wptr") new (s.raw->av) ArrayView<T>(p, n);
-      else if (m == "copy") new (s.raw->av) ArrayView<T>(av(x));
+      else if (m == "src") newFrom<ArrayView<T>>(s.raw->av, srcs[x]);
+      else if (m == "ptr" || m == "wptr") {
+        new (s.raw->av) ArrayView<T>(p, n);
+        ArrayView<T> other = make_ArrayView(p, n); // the helper must build the same view as the constructor
+        ArrayView<T> &mine = *reinterpret_cast<ArrayView<T> *>(s.raw->av);
+        if (other.size() != mine.size() || other.data() != mine.data()) s.note = "make_ArrayView(p, n) differs from ArrayView(p, n)";
+      } else if (m == "copy") new (s.raw->av) ArrayView<T>(av(x));
       else return "bad mode";
-      s.base = &av0(s);
+      s.base = reinterpret_cast<ArrayView<T> *>(s.raw->av);
     } else if (k == "OwnedArray") {
       if (m == "default") new (s.raw->oa) OwnedArray<T>();
-      else if (m == "src") { if (srcs[x].vec) new (s.raw->oa) OwnedArray<T>(*srcs[x].vec); else new (s.raw->oa) OwnedArray<T>(*srcs[x].arr); }
+      else if (m == "src") newFrom<OwnedArray<T>>(s.raw->oa, srcs[x]);
       else if (m == "ptr" || m == "wptr") new (s.raw->oa) OwnedArray<T>(p, n);
       else if (m == "copy") new (s.raw->oa) OwnedArray<T>(oa(x));
+      else if (m == "move") new (s.raw->oa) OwnedArray<T>(std::move(oa(x)));
       else return "bad mode";
       s.base = reinterpret_cast<OwnedArray<T> *>(s.raw->oa);
     } else if (k == "FixedArray") {
       if (m == "default") s.fa = std::shared_ptr<FixedArray<T>>(new FixedArray<T>());
-      else if (m == "src") { if (srcs[x].vec) s.fa = std::shared_ptr<FixedArray<T>>(new FixedArray<T>(*srcs[x].vec)); else s.fa = std::shared_ptr<FixedArray<T>>(new FixedArray<T>(*srcs[x].arr)); }
+      else if (m == "src") s.fa = std::shared_ptr<FixedArray<T>>(heapFrom<FixedArray<T>>(srcs[x]));
       else if (m == "ptr" || m == "wptr") s.fa = std::shared_ptr<FixedArray<T>>(new FixedArray<T>(p, n));
       else if (m == "size") {
         // FixedArray(size) leaves the elements uninitialised; the harness fills them (part of the action)
         s.fa = std::shared_ptr<FixedArray<T>>(new FixedArray<T>(len));
-        for (size_t i = 0; i < vals.size() && i < s.fa->size(); ++i) (*s.fa)[i] = Conv<T>::to(vals[i].num());
+        std::vector<long long> vals;
+        expand(runs, vals);
+        for (size_t i = 0; i < vals.size() && i < s.fa->size(); ++i) (*s.fa)[i] = Conv<T>::to(vals[i]);
       } else if (m == "copy") s.fa = std::shared_ptr<FixedArray<T>>(new FixedArray<T>(*slot[x].fa));
+      else if (m == "move") s.fa = std::shared_ptr<FixedArray<T>>(new FixedArray<T>(std::move(*slot[x].fa)));
       else return "bad mode";
       s.base = s.fa.get();
     } else if (k == "FixedArrayView") {
       if (m == "default") new (s.raw->fv) FixedArrayView<T>();
       else if (m == "fview") new (s.raw->fv) FixedArrayView<T>(slot[x].fa, off, len);
       else if (m == "copy") new (s.raw->fv) FixedArrayView<T>(fv(x));
+      else if (m == "move") new (s.raw->fv) FixedArrayView<T>(std::move(fv(x)));
       else return "bad mode";
       s.base = reinterpret_cast<FixedArrayView<T> *>(s.raw->fv);
     } else
@@ -191,72 +309,135 @@ struct ArrWorld : IWorld
     s.kind = k;
     return "";
   }
-  static ArrayView<T> &av0(Slot &s) { return *reinterpret_cast<ArrayView<T> *>(s.raw->av); }
 
   std::string assign(int w, const std::string &m, int x)
   {
     Slot &s = slot[w];
     if (!s.live) return "slot not live";
+    const bool mv = m == "move";
     if (s.kind == "ArrayView") {
-      if (m == "src") { if (srcs[x].vec) av(w) = *srcs[x].vec; else av(w) = *srcs[x].arr; }
-      else av(w) = av(x);
+      if (m == "src") assignFrom(av(w), srcs[x]);
+      else av(w) = av(x); // x == w: self-assignment
     } else if (s.kind == "OwnedArray") {
-      if (m == "src") { if (srcs[x].vec) oa(w) = *srcs[x].vec; else oa(w) = *srcs[x].arr; }
+      if (m == "src") assignFrom(oa(w), srcs[x]);
+      else if (mv) oa(w) = std::move(oa(x));
       else oa(w) = oa(x);
     } else if (s.kind == "FixedArray") {
-      if (m == "src") { if (srcs[x].vec) *s.fa = *srcs[x].vec; else *s.fa = *srcs[x].arr; }
+      if (m == "src") assignFrom(*s.fa, srcs[x]);
+      else if (mv) *s.fa = std::move(*slot[x].fa);
       else *s.fa = *slot[x].fa;
     } else if (s.kind == "FixedArrayView") {
       if (m == "copy") fv(w) = fv(x);
+      else if (mv) fv(w) = std::move(fv(x));
       else return "bad mode";
     }
     return "";
   }
 
-  Json observeSlot(int i, const Json &dang)
+  static bool flag(const Json &list, int i) { return list.size() >= (size_t)i && list[i - 1].boolean(); }
+
+  // contents: element by element, or (pos non-empty) iteration length, sums and sampled positions
+  template <typename GET> static void contents(Json &o, size_t n, const Json &pos, GET get, T *b, T *e, const T *cb, const T *ce)
   {
+    if (pos.size() == 0) {
+      Json items = Json::array();
+      for (size_t k = 0; k < n && k < 64; ++k) items.push(get(k));
+      o.set("items", items);
+      Json iter = Json::array();
+      size_t cnt = 0;
+      for (T *p = b; p != e && cnt < 64; ++p, ++cnt) iter.push(Conv<T>::from(*p));
+      size_t ccnt = 0;
+      for (const T *p = cb; p != ce && ccnt < 64; ++p) ++ccnt;
+      if (ccnt != cnt) iter.push(CITER_DIFFERS);
+      o.set("iter", iter);
+    } else {
+      long long isum = 0, sum = 0;
+      size_t cnt = 0;
+      for (T *p = b; p != e && cnt < CAP; ++p, ++cnt) isum += Conv<T>::from(*p);
+      size_t ccnt = 0;
+      for (const T *p = cb; p != ce && ccnt < CAP; ++p) ++ccnt;
+      for (size_t k = 0; k < n && k < CAP; ++k) sum += get(k);
+      o.set("iterlen", ccnt == cnt ? (long long)cnt : CITER_DIFFERS);
+      o.set("sum", sum);
+      o.set("isum", isum);
+      Json samp = Json::array();
+      for (size_t k = 0; k < pos.size(); ++k) samp.push(get((size_t)pos[k].num()));
+      o.set("samp", samp);
+    }
+  }
+
+  struct AtGet
+  {
+    AbstractArray<T> &a;
+    long long operator()(size_t k) const
+    {
+      try {
+        T &r = a.at(k);
+        if (&r != &a[k] || &r != a.data() + k) return ACCESS_DISAGREE;
+        return Conv<T>::from(r);
+      } catch (...) {
+        return AT_THREW;
+      }
+    }
+  };
+  struct SrcGet
+  {
+    const Source &s;
+    long long operator()(size_t k) const { return k < s.size() ? Conv<T>::from(s.data()[k]) : AT_THREW; }
+  };
+
+  Json observeSlot(int i, const Json &act)
+  {
+    const Json &dang = act["dang"], &moved = act["moved"];
     Json o = Json::object();
     Slot &s = slot[i];
     if (!s.live) { o.set("st", "dead"); return o; }
-    if (dang.size() >= (size_t)i && dang[i - 1].boolean()) { o.set("st", "dangling"); return o; }
+    if (flag(dang, i)) { o.set("st", "dangling"); return o; }
     AbstractArray<T> &a = *s.base;
+    const size_t n = a.size();
+    if (flag(moved, i)) {
+      // moved-from owning wrapper: valid but unspecified - whatever it shows must be readable and self-consistent
+      bool ok = true;
+      size_t cnt = 0;
+      long long touch = 0;
+      for (T *p = a.begin(); p != a.end() && cnt < CAP; ++p, ++cnt) touch += Conv<T>::from(*p);
+      if (cnt != n) ok = false;
+      try { T &r = a.at(n); (void)&r; ok = false; } catch (...) {}
+      if (n > 0 && a.data() == nullptr) ok = false;
+      if (static_cast<bool>(a) != (n > 0)) ok = false;
+      o.set("st", "moved");
+      o.set("valid", ok && touch > -1000000000000LL);
+      return o;
+    }
     o.set("st", "live");
     o.set("kind", s.kind);
-    const size_t n = a.size();
     o.set("size", (long long)n);
     o.set("nonempty", static_cast<bool>(a));
-    Json items = Json::array();
-    for (size_t k = 0; k < n && k < 64; ++k) {
-      try {
-        T &r = a.at(k);
-        Json v = Conv<T>::from(r);
-        if (&r != &a[k] || &r != a.data() + k) v = Json(ACCESS_DISAGREE);
-        items.push(v);
-      } catch (...) {
-        items.push(AT_THREW);
-      }
-    }
-    o.set("items", items);
-    Json iter = Json::array();
-    size_t cnt = 0;
-    for (T *p = a.begin(); p != a.end() && cnt < 64; ++p, ++cnt) iter.push(Conv<T>::from(*p));
-    size_t ccnt = 0;
-    for (const T *p = a.cbegin(); p != a.cend() && ccnt < 64; ++p) ++ccnt;
-    if (ccnt != cnt) iter.push(CITER_DIFFERS);
-    o.set("iter", iter);
-    // out-of-range at(): size(), size()+1, SIZE_MAX must all throw (the references are never read)
+    // out-of-range at(): index = r*size() + c*2^p + d (mod 2^64) for every probe; all must throw (references are never read)
     std::string oob = "throws";
-    const size_t bad[3] = {n, n + 1, (size_t)-1};
-    for (int b = 0; b < 3; ++b) {
+    const Json &probes = act["probes"];
+    for (size_t q = 0; q < probes.size(); ++q) {
+      const Json &pr = probes[q];
+      uint64_t idx = (uint64_t)pr[0].num() * (uint64_t)n;
+      if (pr[1].num()) idx += pr[2].num() >= 64 ? 0 : ((uint64_t)1 << pr[2].num());
+      idx += (uint64_t)(int64_t)pr[3].num();
       try {
-        T &r = a.at(bad[b]);
+        T &r = a.at((size_t)idx);
         (void)&r;
-        oob = b == 0 ? "at(size()) returned" : b == 1 ? "at(size()+1) returned" : "at(SIZE_MAX) returned";
+        oob = "at(" + std::to_string(pr[0].num()) + "*size+" + std::to_string(pr[1].num()) + "*2^" + std::to_string(pr[2].num()) +
+              "+" + std::to_string(pr[3].num()) + ") returned";
         break;
       } catch (...) {
       }
     }
     o.set("oob", oob);
+    // redundant accessors and entry points agree
+    std::string same = "ok";
+    if (!s.note.empty()) same = s.note;
+    else if (static_cast<T *>(a) != a.data()) same = "operator T*() differs from data()";
+    else if (a.begin() != a.data() || a.cbegin() != a.data()) same = "begin()/cbegin() differ from data()";
+    else if ((size_t)(a.end() - a.begin()) != n || a.cend() != a.end()) same = "end() - begin() differs from size()";
+    o.set("same", same);
     // where data() points, relative to the live sources
     Json loc = Json::object();
     if (n == 0) { loc.set("s", -1); loc.set("off", 0); }
@@ -277,7 +458,7 @@ struct ArrWorld : IWorld
     for (int j = 1; j <= nw; ++j) {
       bool ov = false;
       Slot &t = slot[j];
-      if (j != i && t.live && !(dang.size() >= (size_t)j && dang[j - 1].boolean()) && n > 0 && t.base->size() > 0) {
+      if (j != i && t.live && !flag(dang, j) && !flag(moved, j) && n > 0 && t.base->size() > 0) {
         uintptr_t b1 = (uintptr_t)a.data(), e1 = b1 + n * sizeof(T);
         uintptr_t b2 = (uintptr_t)t.base->data(), e2 = b2 + t.base->size() * sizeof(T);
         ov = b1 < e2 && b2 < e1;
@@ -285,6 +466,10 @@ struct ArrWorld : IWorld
       ovl.push(ov);
     }
     o.set("ovl", ovl);
+    static const Json none = Json::array();
+    const Json &pw = act["pos"]["w"];
+    AtGet g = {a};
+    contents(o, n, pw.size() >= (size_t)i ? pw[i - 1] : none, g, a.begin(), a.end(), a.cbegin(), a.cend());
     return o;
   }
 
@@ -295,10 +480,11 @@ struct ArrWorld : IWorld
     const Json &dang = act["dang"];
     if ((int)dang.size() > nw) nw = (int)dang.size();
     if (nw > MAXSLOTS) nw = MAXSLOTS;
+    for (int i = 1; i <= MAXSLOTS; ++i) slot[i].note.clear();
     std::string err;
     if (a == "Construct") {
       err = construct((int)arg["w"].num(), arg["kind"].str(), arg["m"].str(), (int)arg["x"].num(), (size_t)arg["off"].num(),
-                      (size_t)arg["len"].num(), arg["vals"]);
+                      (size_t)arg["len"].num(), arg["runs"]);
     } else if (a == "Assign") {
       err = assign((int)arg["w"].num(), arg["m"].str(), (int)arg["x"].num());
     } else if (a == "Reset") {
@@ -315,8 +501,9 @@ struct ArrWorld : IWorld
       else err = "reset(p,n) on " + slot[w].kind;
     } else if (a == "Resize") {
       int w = (int)arg["w"].num();
-      if (slot[w].kind == "OwnedArray") oa(w).resize((size_t)arg["n"].num(), Conv<T>::to(arg["v"].num()));
-      else err = "resize on " + slot[w].kind;
+      if (slot[w].kind != "OwnedArray") err = "resize on " + slot[w].kind;
+      else if (arg["self"].boolean()) oa(w).resize((size_t)arg["n"].num(), oa(w)[0]); // val refers to the array's own first element
+      else oa(w).resize((size_t)arg["n"].num(), Conv<T>::to(arg["v"].num()));
     } else if (a == "Write") {
       int w = (int)arg["w"].num();
       slot[w].base->at((size_t)arg["i"].num()) = Conv<T>::to(arg["v"].num());
@@ -326,19 +513,23 @@ struct ArrWorld : IWorld
     } else if (a == "SrcMake") {
       int s = (int)arg["s"].num();
       if (s > ns) ns = s;
-      const Json &vals = arg["vals"];
+      std::vector<long long> vals;
+      expand(arg["runs"], vals);
       if (arg["sk"].str() == "vec") {
         // spare capacity: a wrapper must take size(), never capacity(), elements
         srcs[s].vec = new std::vector<T>();
         srcs[s].vec->reserve(vals.size() + 2);
-        for (size_t i = 0; i < vals.size(); ++i) srcs[s].vec->push_back(Conv<T>::to(vals[i].num()));
-      } else {
-        if (vals.size() != ARRLEN) err = "std::array source must have 3 elements";
-        else {
-          srcs[s].arr = new Arr();
-          for (size_t i = 0; i < ARRLEN; ++i) (*srcs[s].arr)[i] = Conv<T>::to(vals[i].num());
-        }
-      }
+        for (size_t i = 0; i < vals.size(); ++i) srcs[s].vec->push_back(Conv<T>::to(vals[i]));
+      } else if (vals.size() == 3) {
+        srcs[s].a3 = new std::array<T, 3>();
+        for (size_t i = 0; i < 3; ++i) (*srcs[s].a3)[i] = Conv<T>::to(vals[i]);
+      } else if (vals.size() == 1) {
+        srcs[s].a1 = new std::array<T, 1>();
+        (*srcs[s].a1)[0] = Conv<T>::to(vals[0]);
+      } else if (vals.size() == 0) {
+        srcs[s].a0 = new std::array<T, 0>();
+      } else
+        err = "std::array sources have 3, 1 or 0 elements";
     } else if (a == "SrcWrite") {
       int s = (int)arg["s"].num();
       srcs[s].data()[(size_t)arg["i"].num()] = Conv<T>::to(arg["v"].num());
@@ -350,29 +541,27 @@ struct ArrWorld : IWorld
       tmp.resize((size_t)arg["n"].num(), Conv<T>::to(arg["v"].num()));
       srcs[s].vec->swap(tmp);
     } else if (a == "SrcDestroy") {
-      int s = (int)arg["s"].num();
-      delete srcs[s].vec;
-      delete srcs[s].arr;
-      srcs[s].vec = nullptr;
-      srcs[s].arr = nullptr;
+      srcs[(int)arg["s"].num()].destroy();
     } else {
       err = "unknown action " + a;
     }
     Json o = Json::object();
     if (!err.empty()) o.set("driver_error", err);
     Json ws = Json::array();
-    for (int i = 1; i <= nw; ++i) ws.push(observeSlot(i, dang));
+    for (int i = 1; i <= nw; ++i) ws.push(observeSlot(i, act));
     o.set("w", ws);
     Json ss = Json::array();
     int nsrc = act.has("ns") ? (int)act["ns"].num() : ns;
+    static const Json none = Json::array();
+    const Json &ps = act["pos"]["s"];
     for (int s = 1; s <= nsrc; ++s) {
       Json so = Json::object();
       if (!srcs[s].live()) so.set("st", "dead");
       else {
         so.set("st", "live");
-        Json items = Json::array();
-        for (size_t i = 0; i < srcs[s].size(); ++i) items.push(Conv<T>::from(srcs[s].data()[i]));
-        so.set("items", items);
+        SrcGet g = {srcs[s]};
+        T *b = srcs[s].data(), *e = b + srcs[s].size();
+        contents(so, srcs[s].size(), ps.size() >= (size_t)s ? ps[s - 1] : none, g, b, e, b, e);
       }
       ss.push(so);
     }
@@ -423,9 +612,93 @@ struct DataViewWorld : IWorld
     return o;
   }
 
+  // --- far offsets: 2^32 + 2^20 bytes mapped without reserving memory; only the pages written are ever touched
+  static const uint64_t FARSIZE = ((uint64_t)1 << 32) + ((uint64_t)1 << 20);
+  static uint8_t *farMap()
+  {
+    static uint8_t *m = nullptr;
+    if (!m) {
+      void *p = mmap(nullptr, FARSIZE, PROT_READ | PROT_WRITE, MAP_PRIVATE | MAP_ANONYMOUS | MAP_NORESERVE, -1, 0);
+      m = p == MAP_FAILED ? nullptr : (uint8_t *)p;
+    }
+    return m;
+  }
+  static uint64_t limbs(const Json &j) { return (uint64_t)j[0].num() * 65536u + (uint64_t)j[1].num(); }
+  static Json toLimbs(uint64_t v) { Json a = Json::array(); a.push((long long)(v >> 16)); a.push((long long)(v & 65535)); return a; }
+  static uint8_t farPat(uint64_t q) { return (uint8_t)(((q & 255) * 7 + 3 + 89 * ((q >> 16) % 251)) & 255); }
+  static void fill(uint8_t *m, const Json &fills)
+  {
+    for (size_t k = 0; k < fills.size(); ++k) {
+      uint64_t p = limbs(fills[k]);
+      uint64_t lo = p >= 16 ? p - 16 : 0, hi = p + 48 < FARSIZE ? p + 48 : FARSIZE;
+      for (uint64_t q = lo; q < hi; ++q) m[q] = farPat(q);
+    }
+  }
+  template <typename T>
+  Json runFar(const Json &arg, uint8_t *m)
+  {
+    Json o = Json::object();
+    DataView<T> dv(m, (size_t)arg["stride"].num());
+    const uint64_t i = limbs(arg["i"]);
+    const T *e = &dv[(size_t)i];
+    o.set("off", toLimbs((uint64_t)((const uint8_t *)e - m)));
+    T val = dv[(size_t)i];
+    uint8_t raw[sizeof(T)];
+    memcpy(raw, &val, sizeof(T));
+    Json bs = Json::array();
+    for (size_t k = 0; k < sizeof(T); ++k) bs.push((int)raw[k]);
+    o.set("bytes", bs);
+    return o;
+  }
+  Json viewFar(const Json &arg, uint8_t *m)
+  {
+    Json o = Json::object();
+    const uint64_t n = limbs(arg["n"]);
+    const std::string &how = arg["how"].str();
+    ArrayView<uint8_t> a;
+    if (how == "ctor") { ArrayView<uint8_t> t(m, (size_t)n); a = t; }
+    else if (how == "make") a = make_ArrayView(m, (size_t)n);
+    else if (how == "reset") a.reset(m, (size_t)n);
+    else { ArrayView<uint8_t> t(m, (size_t)n); ArrayView<uint8_t> c(t); a = c; }
+    o.set("size", toLimbs((uint64_t)a.size()));
+    o.set("len", toLimbs((uint64_t)(a.end() - a.begin())));
+    o.set("nonempty", static_cast<bool>(a));
+    try { uint8_t &r = a.at((size_t)n); (void)&r; o.set("atn", "at(size()) returned"); } catch (...) { o.set("atn", "throws"); }
+    Json ins = Json::array();
+    const Json &ks = arg["inside"];
+    for (size_t k = 0; k < ks.size(); ++k) {
+      Json e = Json::object();
+      try {
+        uint8_t &r = a.at((size_t)limbs(ks[k]));
+        e.set("off", toLimbs((uint64_t)(&r - m)));
+        e.set("v", (int)r);
+      } catch (...) {
+        e.set("off", toLimbs(0));
+        e.set("v", -1); // at(i) threw for i < size()
+      }
+      ins.push(e);
+    }
+    o.set("inside", ins);
+    return o;
+  }
+
   Json step(const Json &act) override
   {
     const Json &arg = act["arg"];
+    const std::string &a = act["a"].str();
+    if (a == "DataViewFar" || a == "ViewFar") {
+      uint8_t *m = farMap();
+      if (!m) { Json o = Json::object(); o.set("driver_error", "cannot map 4 GiB of address space"); return o; }
+      fill(m, arg["fills"]);
+      if (a == "ViewFar") return viewFar(arg, m);
+      switch ((int)arg["esz"].num()) {
+      case 1: return runFar<uint8_t>(arg, m);
+      case 2: return runFar<uint16_t>(arg, m);
+      case 4: return runFar<uint32_t>(arg, m);
+      case 8: return runFar<uint64_t>(arg, m);
+      case 12: return runFar<E12>(arg, m);
+      }
+    }
     switch ((int)arg["esz"].num()) {
     case 1: return run<uint8_t>(arg);
     case 2: return run<uint16_t>(arg);
@@ -448,7 +721,10 @@ struct World
     if (v == "dataview") w = new DataViewWorld();
     else if (v == "u8") w = new ArrWorld<uint8_t>();
     else if (v == "f64") w = new ArrWorld<double>();
+    else if (v == "s3") w = new ArrWorld<S3>();
     else if (v == "s12") w = new ArrWorld<S12>();
+    else if (v == "s24") w = new ArrWorld<S24>();
+    else if (v == "str") w = new ArrWorld<std::string>();
     else w = new ArrWorld<int32_t>();
   }
   ~World() { delete w; }
